@@ -220,7 +220,8 @@ func (g *Gen) Value(t reflect.Type) reflect.Value {
 					v.Field(i).SetInt(int64([]int{0, 201, 200, 202}[g.c.Choose(4, "created-status")]))
 					continue
 				}
-				if strings.HasSuffix(t.PkgPath(), "restli/common") && (f.Name == "Id" || f.Name == "Entity" || f.Name == "Metadata") {
+				// (the Rest.li data records: .../restli/common in the v2 module, package restlidata in the root module)
+				if (strings.HasSuffix(t.PkgPath(), "restli/common") || strings.HasSuffix(t.PkgPath(), "/restlidata")) && (f.Name == "Id" || f.Name == "Entity" || f.Name == "Metadata") {
 					// instantiated type parameters (keys, entities, metadata) are required values
 					if f.Name == "Id" {
 						v.Field(i).Set(g.Key(f.Type))
